@@ -9,7 +9,7 @@ TRUSTED = ['fnmatch.fnmatch (assumed library contract)', 'array literal construc
 
 def history_case(seed_words, edits, probes):
     """ one host list searched, edited in place by the host, searched again ...; first failure or None """
-    import fnmatch
+    from pyvc.api import wildcard_match
     from pyvc import e2e
     p = e2e.new_parser()
     ws = list(seed_words)
@@ -18,7 +18,7 @@ def history_case(seed_words, edits, probes):
     for step in range(len(edits) + 1):
         for x in probes:
             if isinstance(x, str):
-                hits = [j for j, w in enumerate(ws) if isinstance(w, str) and fnmatch.fnmatch(w.lower(), x.lower())]
+                hits = [j for j, w in enumerate(ws) if isinstance(w, str) and wildcard_match(w.lower(), x.lower())]
             else:
                 hits = [j for j, w in enumerate(ws) if not isinstance(w, str) and w == x]
             lit = '"%s"' % x if isinstance(x, str) else repr(x)
@@ -41,8 +41,8 @@ def extra(report, env):
     import random
     from props.common import bounded
     rng = random.Random(env['seed'])
-    words = ['apple', 'Apple', 'pear', 'plum', 'fig', 'figs', 'kiwi', 'lime', 'PLUM', 'peach', 3, 7, 2.5, 'pea', 'AB-1', 'AB-10', 'AB-100', 'app']
-    probes_pool = ['apple', 'pear', 'p*', 'fig?', '?i*', 'plum', 'kiwi', 'zzz', 3, 7, 2.5, 4, 'pea', 'AB-1', 'AB-10', 'app', 'fig']
+    words = ['apple', 'Apple', 'pear', 'plum', 'fig', 'figs', 'kiwi', 'lime', 'PLUM', 'peach', 3, 7, 2.5, 'pea', 'AB-1', 'AB-10', 'AB-100', 'app', 'a[1]', 'a1', '[x]', 'x']
+    probes_pool = ['apple', 'pear', 'p*', 'fig?', '?i*', 'plum', 'kiwi', 'zzz', 3, 7, 2.5, 4, 'pea', 'AB-1', 'AB-10', 'app', 'fig', 'a[1]', 'a[1]*', '[x]', '?[1]', '[!a]*']
     cases = 0
     fails = []
     for _ in range(60 if env['tier'] == 'quick' else 1000):
